@@ -14,6 +14,7 @@ type Case struct {
 	NRefs  int         `json:"nrefs"`
 	Closed bool        `json:"closed"`
 	Tags   [][2]string `json:"tags"`
+	Ann    string      `json:"ann"` // how the node refs are annotated: none | all | lastbare | differ | partial
 }
 
 type Rec struct {
@@ -35,8 +36,24 @@ func main() {
 			for j := 0; j < c.NRefs; j++ {
 				w.Nodes = append(w.Nodes, osm.WayNode{ID: osm.NodeID(100 + j)})
 			}
+			for j := range w.Nodes {
+				ann := c.Ann == "all" || c.Ann == "lastbare" || c.Ann == "differ" || (c.Ann == "partial" && j%2 == 0)
+				if ann {
+					w.Nodes[j].Version, w.Nodes[j].ChangesetID = 2+j, osm.ChangesetID(50+j)
+					w.Nodes[j].Lat, w.Nodes[j].Lon = 10+float64(j)/100, 20+float64(j)/100
+				}
+			}
 			if c.Closed && c.NRefs > 0 {
-				w.Nodes[c.NRefs-1].ID = w.Nodes[0].ID
+				last := &w.Nodes[c.NRefs-1]
+				last.ID = w.Nodes[0].ID
+				switch c.Ann {
+				case "all": // the closing ref is the same node: same annotations
+					*last = w.Nodes[0]
+				case "lastbare": // an annotated ring closed by appending a bare reference
+					*last = osm.WayNode{ID: w.Nodes[0].ID}
+				case "differ": // same node id, annotations of another version
+					last.Version, last.Lat = 9, 11.5
+				}
 			}
 			got = w.Polygon()
 		} else {
